@@ -238,7 +238,7 @@ func runC16(c *CheckCtx) {
 func init() {
 	register(&Property{
 		ID: "C17", Level: "other",
-		Technique: "contract-based deductive verification of the position bookkeeping functions: lisperror.NewLispError (an error that carries a position keeps it; otherwise it gets the position of the reporting form), lisperror.GetPosition (the cursor of lists, vectors, symbols, maps, sets), Position.Copy/Close (begin from the receiver, end from the closing token), tokenReader.peek/next (the cursor handed out is the token's)",
+		Technique: "contract-based deductive verification of the position bookkeeping functions: lisperror.NewLispError (an error that carries a position keeps it; otherwise it gets the position of the reporting form), lisperror.GetPosition (the cursor of lists, vectors, symbols, maps, sets), Position.Copy/Close (begin from the receiver, end from the closing token), tokenReader.peek/next (the cursor handed out is the token's), tokenize (every token's cursor begins and ends on the scanner's line for that token and carries the module)",
 		DesignRef: "DESIGN.md §4 C17",
 		Explain:   "partial: the functions through which every error position passes are proved against their specification; that the reader's list cursors span first to last token, that EVAL hands the right form to NewLispError at each site, token rows = text lines (scanner) and library macros are not covered",
 		Run:       runC17,
@@ -247,11 +247,11 @@ func init() {
 
 func runC17(c *CheckCtx) {
 	names := []string{"lisperror.NewLispError", "lisperror.GetPosition", "(*types.Position).Copy", "(*types.Position).Close",
-		"(*reader.tokenReader).peek", "(*reader.tokenReader).next"}
+		"(*reader.tokenReader).peek", "(*reader.tokenReader).next", "reader.tokenize"}
 	jobs := c.jobsFor(names, func(f *ssa.Function) *Job {
 		return &Job{Fn: f, PanicMode: "ignore"}
 	})
 	c.runJobs(jobs, func(o *Obligation) bool { return o.Kind == "post" })
-	c.assumptions["A-SCAN: token rows are text lines (third-party scanner)"] = true
+	c.assumptions["A-SCAN: token rows are text lines (third-party scanner); the scanner is modelled as a state machine whose Pos/TokenText are functions of the number of Scan calls"] = true
 	c.assumptions["not covered: spans of the lists built by read_list (attempted, dropped: the loop-carried cursor facts did not discharge), the form EVAL passes to NewLispError at each error site, positions through library macros written in lisp"] = true
 }
